@@ -3,6 +3,8 @@
 package snaps
 
 import (
+	"strings"
+
 	"github.com/gkampitakis/go-snaps/internal/vxrt"
 	"github.com/gkampitakis/go-snaps/match"
 )
@@ -24,11 +26,14 @@ func H_C16_mask() {
 	c := WithConfig(Dir(dir), Filename("f"))
 	n := vxrt.Param("n", 1)
 	// masked member m (a string, so that Type[string] is satisfied), unmasked member a
-	matcherKind := vxrt.Choice("matcher", 3)
+	matcherKind := vxrt.Choice("matcher", 4)
 	// masked values: strings; for Any and Custom also null / number / bool (Type[string] needs strings)
 	maskedVal := func(label string) string {
 		if matcherKind == 1 {
 			return vxSymString(label, n)
+		}
+		if matcherKind == 3 { // Type[[]any] needs lists: of any element kinds, or empty
+			return []string{`["x","y"]`, `[1,2]`, `[]`, `["x",true]`, `[null]`}[vxrt.Choice(label+"-list", 5)]
 		}
 		switch vxrt.Choice(label+"-kind", 4) {
 		case 0:
@@ -57,6 +62,8 @@ func H_C16_mask() {
 		mk = func() match.JSONMatcher { return match.Any("m") }
 	case 1:
 		mk = func() match.JSONMatcher { return match.Type[string]("m") }
+	case 3:
+		mk = func() match.JSONMatcher { return match.Type[[]any]("m") }
 	default:
 		mk = func() match.JSONMatcher {
 			return match.Custom("m", func(val any) (any, error) { return "masked", nil })
@@ -142,4 +149,66 @@ func H_C16_update() {
 	call(plain, t4, doc(a1, m3))
 	t4.end()
 	vxrt.Assert(len(t4.errors) == 1, "C16:unmasked-difference-fails-after-update")
+}
+
+// vxMaskMember is a YAML matcher that replaces the value of the top-level member m.
+type vxMaskMember struct{}
+
+func (vxMaskMember) YAML(b []byte) ([]byte, []match.MatcherError) {
+	lines := strings.Split(string(b), "\n")
+	for i, l := range lines {
+		if strings.HasPrefix(l, "m: ") {
+			lines[i] = "m: masked"
+		}
+	}
+	return []byte(strings.Join(lines, "\n")), nil
+}
+
+// H_C16_blanks: an unmasked difference made of blanks only - the end of a line inside a literal
+// block scalar, where spaces and tabs are part of the value - fails like any other unmasked
+// difference, with and without a matcher on another member; identical documents pass.
+func H_C16_blanks() {
+	vxrt.CI(false)
+	vxrt.YAMLAssume(true)
+	vxrt.EnvFixed("NO_COLOR", "1")
+	dir := vxrt.Dir()
+	c := WithConfig(Dir(dir), Filename("f"))
+	ends := []string{"", " ", "\t", "  ", " \t"}
+	e1, e2 := ends[vxrt.Choice("line-end-1", len(ends))], ends[vxrt.Choice("line-end-2", len(ends))]
+	doc := func(e, m string) string { return "sig: |\n  --" + e + "\n  John\nm: " + m }
+	masked := vxrt.Bool("with-matcher")
+	json := vxrt.Bool("json")
+	if json {
+		doc = func(e, m string) string {
+			return `{"m":"` + m + `","sig":"--` + strings.ReplaceAll(e, "\t", `\t`) + `"}`
+		}
+	}
+	call := func(t *vxMockT, d string) {
+		switch {
+		case json && masked:
+			c.MatchJSON(t, d, match.Any("m"))
+		case json:
+			c.MatchJSON(t, d)
+		case masked:
+			c.MatchYAML(t, d, vxMaskMember{})
+		default:
+			c.MatchYAML(t, d)
+		}
+	}
+	m2 := "one"
+	if masked {
+		m2 = "two"
+	}
+	t1 := vxNewT("TestM")
+	call(t1, doc(e1, "one"))
+	t1.end()
+	vxrt.Assert(len(t1.errors) == 0 && len(t1.logs) == 1, "C16:record")
+	t2 := vxNewT("TestM")
+	call(t2, doc(e2, m2))
+	t2.end()
+	if e1 == e2 {
+		vxrt.Assert(len(t2.errors) == 0 && len(t2.logs) == 0, "C16:masked-difference-passes")
+	} else {
+		vxrt.Assert(len(t2.errors) == 1, "C16:unmasked-difference-fails")
+	}
 }
